@@ -53,8 +53,11 @@ class Cx:
     def include(self, module, rules, rid, text, floor=None, skip=()):
         """evaluate another property's module on the same facts and adopt the obligations of the given
         rules under rule id `rid` (a construct that is a necessary condition of both properties)"""
+        if getattr(self, "nested", False):
+            return      # only native rules are adopted; includes of an included module are not evaluated (and may be cyclic)
         self.rule(rid, text, floor)
         sub = Cx(self.prop, self.tier, self.p, self.progs)
+        sub.nested = True
         module.check(sub)
         for o in sub.obl:
             if o["rule"] in rules:
